@@ -415,7 +415,11 @@ def run_shear_var(c, o):
     o.close("shear/pure_translation", out, spec_shear(mesh, c["axis"], dist), rtol=1e-12, scale=np.abs(mesh).max(), what="varying %s" % name)
     o.true("shear/distribution_within_cp_range", bool(dist.min() >= min(c["cps"]) - 1e-12 and dist.max() <= max(c["cps"]) + 1e-12),
            "B-spline distribution leaves the convex hull of its control points")
-    if c["axis"] == 1 and c["mesh"].get("camber", 0.0) == 0.0:
+    # (a y shear that folds the planform - stations no longer in spanwise order - leaves "distance from the root" undefined: skipped and counted)
+    folded = c["axis"] == 1 and not (np.all(np.diff(out[0, :, 1]) > 0) and np.all(np.diff(out[-1, :, 1]) > 0))
+    if folded:
+        o.count("yshear_folds_planform_skipped")
+    if c["axis"] == 1 and c["mesh"].get("camber", 0.0) == 0.0 and not folded:
         # a varying y shear together with dihedral: z rises linearly with the distance from the root of the mesh that is returned
         # (flat chords only, so that the recorded Rotate finding C13/rotate_x_nonflat_chord does not enter)
         for deg in ([8.0, -5.0, 12.5][len(c["cps"]) % 3], -3.0):
